@@ -30,6 +30,9 @@ type Mutant struct {
 
 var mutants []Mutant
 
+// verifDirGlobal is set by main (location of known_findings.json).
+var verifDirGlobal = "/verif"
+
 func addMutants(ms ...Mutant) { mutants = append(mutants, ms...) }
 
 type mutantOutcome struct {
@@ -70,7 +73,19 @@ func runMutant(m Mutant, repo string) mutantOutcome {
 		count[o.Rule]++
 	}
 	seen := map[string]bool{}
+	known, _ := loadKnown(verifDirGlobal + "/known_findings.json")
 	for _, o := range r.Obls {
+		if o.Status == Violated && known != nil {
+			skip := false
+			for _, k := range known.Findings {
+				if k.Property == m.Prop && k.Rule == o.Rule && k.Construct == o.Construct {
+					skip = true
+				}
+			}
+			if skip {
+				continue
+			}
+		}
 		if o.Status == Violated || o.Status == Undecided {
 			if !seen[o.Rule] {
 				seen[o.Rule] = true
